@@ -74,10 +74,22 @@ def storage(sh):
     return "one" if (r, c) == (1, 1) else ("row" if r == 1 else ("col" if c == 1 else "mat"))
 
 def shape_classes(cs):
-    s = storage(cs["ls"])
-    if cs["ar"] >= 2: s += "," + storage(cs["rs"])
+    s = storage(cs["ls"]) + ("~" + cs["ra"] if cs["ra"] != "lit" else "")
+    if cs["ar"] >= 2: s += "," + storage(cs["rs"]) + ("~" + cs["rb"] if cs["rb"] != "lit" else "")
     if cs["ar"] == 3: s += "," + storage(cs["ts"])
     return s
+
+def route_expr(rt, kind, m, mt, tokens=False):
+    """the operand m (its transpose mt comes from the model too) materialised through route rt (spec/MC_G01.tla, Route)"""
+    L = literal(kind, m, tokens)
+    if rt == "lit": return L
+    if rt == "idl": return f"{literal(kind, identity(m['r']))} ** {L}"
+    if rt == "tidl": return f"({literal(kind, identity(m['c']))} ** {literal(kind, mt, tokens)})'"
+    if rt == "tt": return f"({L}')'"
+    pad = {"r": 1, "c": 2, "q": m["q"], "d": [m["d"][0], 0]}
+    if rt == "pv": return f"({literal(kind, identity(1))} ** {literal(kind, pad)}) ** {literal(kind, {'r': 2, 'c': 1, 'q': 0, 'd': [1, 0]})}"
+    if rt == "pr": return f"{literal(kind, pad)} ** ({literal(kind, identity(1))} ** {literal(kind, {'r': 1, 'c': 2, 'q': 0, 'd': [1, 0]})})'"
+    raise ValueError(rt)
 
 def sub_products(cs):
     """the (lhs shape, rhs shape) of every `**` the expression of the case evaluates, innermost first (from the model's shapes)"""
@@ -101,6 +113,10 @@ def build(cs, kind, form, tokens=False):
         ar = cs["ar"]
         return [], expression(eop, literal(kind, A, tokens), literal(kind, B) if ar >= 2 else "", literal(kind, C) if ar == 3 else "",
                               literal(kind, I_r) if op == "idl" else "", literal(kind, I_c) if op == "idr" else "")
+    if cs["ra"] != "lit" or cs["rb"] != "lit":
+        pre = [f"A := {route_expr(cs['ra'], kind, A, cs['At'], tokens)}"]
+        if cs["ar"] >= 2: pre.append(f"B := {route_expr(cs['rb'], kind, B, cs['Bt'])}")
+        return pre, expression(eop, "A", "B", "C", "I", "I")
     pre = [render.define_matrix("A", kind, A["r"], A["c"], cells(kind, A, tokens))]
     if cs["ar"] >= 2: pre.append(render.define_matrix("B", kind, B["r"], B["c"], cells(kind, B)))
     if cs["ar"] == 3: pre.append(render.define_matrix("C", kind, C["r"], C["c"], cells(kind, C)))
@@ -153,7 +169,9 @@ def run(rep, tier, seed):
         if len(ks) == 1 and tier == "quick": skipped += 1
         for kind, inrange in ks:
             tokens = kind in TOKEN_KINDS
-            forms = ["var"] + ([] if kind in SIGNED else ["lit"]) + (["flat"] if cs["op"] == "chainl" else [])
+            routed = cs["ra"] != "lit" or cs["rb"] != "lit"
+            if routed and (kind in SIGNED or tokens): continue          # the routes are written with literal matrices
+            forms = ["var"] + ([] if kind in SIGNED or routed else ["lit"]) + (["flat"] if cs["op"] == "chainl" else [])
             for form in forms:
                 pre, expr = build(cs, kind, form, tokens)
                 reqs.append({"id": len(reqs), "mode": "session", "stmts": pre + [expr, {"op": "step", "n": 1}],
@@ -170,8 +188,8 @@ def run(rep, tier, seed):
     # signature): a composite expression that contains such a product is attributed to that signature, not to a new one
     bad_pairs = set()
     for req, (resp, oc), (cs, kind, form, inrange, npre) in list(zip(reqs, outs, meta))[nscalar:]:
-        if cs["op"] == "matmul" and cs["exp"] == "exact" and oc == "ok" and len((resp or {}).get("steps", [])) > npre and resp["steps"][npre].get("r") == "err":
-            bad_pairs.add((storage(cs["ls"]), storage(cs["rs"])))
+        if cs["op"] == "matmul" and cs["exp"] == "exact" and inrange and sacc.get(kind) and oc == "ok" and len((resp or {}).get("steps", [])) > npre and resp["steps"][npre].get("r") == "err":
+            if cs["ra"] == "lit" and cs["rb"] == "lit": bad_pairs.add((storage(cs["ls"]), storage(cs["rs"])))
     for req, (resp, oc), (cs, kind, form, inrange, npre) in list(zip(reqs, outs, meta))[nscalar:]:
         op = cs["op"]; tokens = kind in TOKEN_KINDS
         variant = "" if form == "var" else "/" + form
@@ -183,6 +201,7 @@ def run(rep, tier, seed):
         st = resp["steps"]
         if any(s.get("r") != "ok" for s in st[:npre]):
             bad = next(i for i, s in enumerate(st[:npre]) if s.get("r") != "ok")
+            if cs["ra"] != "lit" or cs["rb"] != "lit": tally["route_unbuildable"] += 1; continue      # the route expression itself is replayed as a case of its own (idl, tt, chain ...)
             rep.fail(f"G01/setup/{kind}", f"operand could not be built: {req['stmts'][bad]} -> {st[bad].get('class')} {st[bad].get('msg')}", replay); continue
         ev = st[npre]
         if ev.get("p") != "ok" or not (ev.get("shape") and ev["shape"][0].startswith("MechCode")):
@@ -221,7 +240,9 @@ def run(rep, tier, seed):
             continue
         # exact
         if not ok:
-            root = next(((storage(a), storage(b)) for a, b in sub_products(cs) if (storage(a), storage(b)) in bad_pairs), None)
+            root = None
+            if cs["ra"] == "lit" and cs["rb"] == "lit":
+                root = next(((storage(a), storage(b)) for a, b in sub_products(cs) if (storage(a), storage(b)) in bad_pairs), None)
             fsig = f"G01/matmul/rejects-conformable/{root[0]},{root[1]}" if root else f"G01/{op}{variant}/rejects-conformable/{shape_classes(cs)}"
             rep.fail(fsig, f"{req['stmts']} rejected ({ev.get('class')}: {ev.get('msg')}) but {cs['sig']} is defined", replay); continue
         got = absval.absval(ev["v"])
@@ -248,7 +269,7 @@ def run(rep, tier, seed):
                     "traces_validated_against_impl": nrep, "cases_emitted": len(cases), "cases_replayed": nrep,
                     "exact_matched": tally["exact_ok"], "rejects_matched": tally["reject_ok"], "free_outcomes": tally["free"],
                     "steps_unchanged": tally["step_ok"], "out_of_range(free)": tally["out_of_range"],
-                    "cases_with_no_second_kind": skipped, "arms_hit": len(arms),
+                    "cases_with_no_second_kind": skipped, "arms_hit": len(arms), "routed_operand_unbuildable": tally["route_unbuildable"],
                     "scalar_form_accepting_kinds": sorted(k for k, v in sacc.items() if v),
                     "matrix_dot_outside_documented_domain": dict(dot_matrix), "exhaustive": True,
                     "rule": "every (operator, operand shapes, filling) of the bounded MechMatrixOps model (all shape pairs for ** and matrix/dot, all shapes for ', stats/sum/row, stats/sum/column and the composite expressions of the laws, all conformable triples of the chain dimensions); each replayed for f64 and rotating / further element kinds, with operands in variables and as literals; shape and every element compared exactly; one re-evaluation step"})
